@@ -4,7 +4,8 @@ CONSTANTS
   MaxQ = 2
   MaxSess = 2
   MaxLater = 1
-  Depth = 7
+  Depth = 6
+  Full = TRUE
 CONSTRAINT Bound
 VIEW View
 INVARIANT ReplyConservation
